@@ -84,7 +84,8 @@ def gen_case(seed, cfg, index=0):
             c = r.random()
 
             def call():
-                cid = r.randrange(len(MENU))
+                # threads of one program tend to make the same calls: a first-time compilation of one key by two threads at once
+                cid = r.choice(sorted(used_calls)) if used_calls and r.random() < 0.4 else r.randrange(len(MENU))
                 used_calls.add(cid)
                 b = None if r.random() < 0.8 else r.choice(TRIO)
                 return ["call", cid, b]
@@ -130,13 +131,13 @@ def gen_case(seed, cfg, index=0):
         d = r.choice([1, 2, 3])
         pts = [[f"T{r.randrange(nthreads)}", int(10 ** r.uniform(0, 4.6))] for _ in range(d)]
         policy = {"kind": "pct", "points": pts, "seed": r.randrange(1 << 30)}
-    return {"seed": seed, "threads": threads, "warm": warm, "fakes": fakes, "policy": policy, "opcode": r.random() < float(cfg.get("opcode_p", 0.0))}
+    return {"seed": seed, "threads": threads, "warm": warm, "fakes": fakes, "policy": policy, "opcode": r.random() < float(cfg.get("opcode_p", 0.0)) and False}  # opcode granularity is disabled: see DESIGN §7.5 (not replayable on CPython 3.12)
 
 
 # ------------------------------------------------------------------------------------------------
 # worker side
 # ------------------------------------------------------------------------------------------------
-W = types.SimpleNamespace(table=None, x=None, r=None, c2=None, back=None, stacks=None, adapters=None)
+W = types.SimpleNamespace(table=None, x=None, r=None, c2=None, back=None, stacks=None, adapters=None, tag="")
 
 
 def worker_init(cfg):
@@ -154,6 +155,13 @@ def worker_init(cfg):
     for cid in range(len(MENU)):
         for n in TRIO:
             W.table[(cid, n)] = _outcome(lambda: _do_call(cid, W.back[n]))
+    W.tag = "_t9"
+    _fresh_adapters()
+    for cid in range(len(MENU)):  # the table must not depend on the axis names: runs use run-unique ones
+        for n in TRIO:
+            if _outcome(lambda: _do_call(cid, W.back[n])) != W.table[(cid, n)]:
+                raise RuntimeError(f"outcome of menu call {cid} under {n} depends on the axis names")
+    W.tag = ""
     seams.reset_world(0)
     from einx._src.adapter.arrayapi.namespacestack import ArrayApiNamespaceStack
     from einx._src.adapter.torch.devicestack import TorchDeviceStack
@@ -180,15 +188,23 @@ def _outcome(f):
         return ["exc", type(e).__name__]
 
 
+import re as _re
+
+_AXIS = _re.compile(r"\b([abc])\b")
+
+
 def _do_call(cid, backend):
     einx = seams.WORLD.einx
     op, desc, args, kw, graph = MENU[cid]
     ts = [W.x if a == "x" else (W.c2 if a == "c2" else W.r) for a in args]
     kw = dict(kw)
+    if W.tag:  # run-unique axis names: every run compiles from scratch whatever the cache implementation of the tree under test
+        desc = _AXIS.sub(lambda m: m.group(1) + W.tag, desc)
+        kw = {(k + W.tag if k in ("a", "b", "c") else k): v for k, v in kw.items()}
     if op.startswith("adapt:"):
         return W.adapters[op[6:]](desc, *ts, **kw)
     if op == "solve_axes":
-        return sorted((k, int(v)) for k, v in einx.solve_axes(desc, *ts).items())
+        return sorted((k[: -len(W.tag)] if W.tag and k.endswith(W.tag) else k, int(v)) for k, v in einx.solve_axes(desc, *ts).items())
     if backend is not None:
         kw["backend"] = backend
     if graph:
@@ -409,6 +425,7 @@ def run_index(i, master, cfg):
 def exec_case(case, cfg):
     einx = seams.WORLD.einx
     seams.reset_world(case["seed"])
+    W.tag = "_" + rng.tag(case["seed"])[:6]
     world = World(case)
     for m in world.mods:
         sys.modules.pop(m, None)
@@ -569,7 +586,7 @@ def shrink_case(case, klass, cfg):
 def plan(tier):
     n = 4000 if tier == "quick" else 120000
     return {"groups": [{"env": {"hashseed": 0}, "indices": [i for i in range(n) if i % 4 != 3]}, {"env": {"hashseed": 0, "cache_size": 2}, "indices": [i for i in range(n) if i % 4 == 3]}], "n_workers": 16, "chunk": 20 if tier == "quick" else 50,
-            "wall_per_chunk": 900.0, "vacuity": ("ok_calls", 0.3), "cfg": {"wall_per_run": 120, "opcode_p": 0.5 if tier == "thorough" else 0.25}, "recycle_after": 2000}
+            "wall_per_chunk": 900.0, "vacuity": ("ok_calls", 0.3), "cfg": {"wall_per_run": 120, "opcode_p": 0.0}, "recycle_after": 2000}
 
 
 def describe(results, agg):
@@ -582,7 +599,7 @@ def describe(results, agg):
                 "tracer/graph.py, util/lru_cache.py, frontend/api.py or the device/namespace stack files",
         "logical_steps": agg["stats"].get("steps", 0),
         "context_switches": agg["stats"].get("switches", 0),
-        "preemption_set": "every file under einx/ except util/solver.py, line granularity; opcode granularity in frontend/backend.py, tracer/graph.py, util/lru_cache.py for half of the thorough-tier and a quarter of the quick-tier runs",
+        "preemption_set": "every file under einx/ except util/solver.py, line granularity (the property's own quantifier)",
     }
 
 
